@@ -31,6 +31,12 @@ type facts struct {
 	// Gated describes the forced interleaving of the "gated" order class.
 	Gated []string `json:"gated_interleaving,omitempty"`
 
+	// BlockedCallers are the goroutine dump entries of the callers of a stalled concurrent restore.
+	BlockedCallers []gState `json:"blocked_callers,omitempty"`
+
+	// abandonDB: goroutines of the code under test are stuck inside the database; it must not be
+	// closed (Close could hang too) and is left behind.
+	abandonDB bool
 	// want is the reference contents (for the read-back right after an early done=true).
 	want []kv
 	// extra collects further oracle failures of the same run (reported by the caller).
@@ -253,17 +259,22 @@ func honestRestore(ctx context.Context, ndb api.NodeDB, backend string, meta *ch
 		}
 		rng.Shuffle(len(seq), func(a, b int) { seq[a], seq[b] = seq[b], seq[a] })
 		var (
-			next     atomic.Int64
-			mu       sync.Mutex
-			okCount  = make([]int, n)
-			doneSeen int
-			bad      *problem
-			wg       sync.WaitGroup
+			next      atomic.Int64
+			progress  atomic.Int64
+			abandoned atomic.Bool
+			mu        sync.Mutex
+			okCount   = make([]int, n)
+			doneSeen  int
+			bad       *problem
+			wg        sync.WaitGroup
+			ids       = map[int64]bool{}
 		)
 		for g := 0; g < 4; g++ {
 			wg.Add(1)
+			idCh := make(chan int64, 1)
 			go func() {
 				defer wg.Done()
+				idCh <- goid()
 				defer func() {
 					if rec := recover(); rec != nil {
 						mu.Lock()
@@ -280,6 +291,10 @@ func honestRestore(ctx context.Context, ndb api.NodeDB, backend string, meta *ch
 					}
 					i := seq[k]
 					done, err := rs.RestoreChunk(ctx, uint64(i), bytes.NewReader(chunks[i]))
+					if abandoned.Load() {
+						return // the harness gave this restore up; its bookkeeping is no longer ours
+					}
+					progress.Add(1)
 					mu.Lock()
 					st.add("restorechunk_calls", 1)
 					st.add("concurrent_result/"+errClass(err), 1)
@@ -302,8 +317,55 @@ func honestRestore(ctx context.Context, ndb api.NodeDB, backend string, meta *ch
 					mu.Unlock()
 				}
 			}()
+			ids[<-idCh] = true
 		}
-		wg.Wait()
+		// Wait for the callers; a stall is judged from goroutine dumps (stall.go).
+		finished := make(chan struct{})
+		go func() { wg.Wait(); close(finished) }()
+		started := time.Now()
+		lastProgress, lastChange := progress.Load(), time.Now()
+	waitLoop:
+		for {
+			select {
+			case <-finished:
+				break waitLoop
+			case <-time.After(500 * time.Millisecond):
+			}
+			if p := progress.Load(); p != lastProgress {
+				lastProgress, lastChange = p, time.Now()
+				continue
+			}
+			if time.Since(lastChange) < stallGrace {
+				continue
+			}
+			deadlock, blocked, other := judgeStall(ids, &progress)
+			select {
+			case <-finished:
+				break waitLoop
+			default:
+			}
+			if deadlock {
+				abandoned.Store(true)
+				fc.abandonDB = true
+				fc.BlockedCallers = blocked
+				noteDeadlock(backend)
+				mu.Lock()
+				st.add("concurrent_restores_deadlocked/"+backend, 1)
+				mu.Unlock()
+				return &problem{
+					"c12/concurrent-restore-deadlock/" + backend,
+					fmt.Sprintf("4 concurrent RestoreChunk callers: no call returned for %s after %d of %d submissions; in two goroutine dumps %s apart the same %d callers are blocked in mutex locks of the node database and no caller is runnable: %s",
+						stallGrace, lastProgress, len(seq), stallDumpGap, len(blocked), describeBlocked(blocked)),
+				}
+			}
+			if time.Since(started) > stallWatchdog {
+				abandoned.Store(true)
+				fc.abandonDB = true
+				fc.BlockedCallers = append(blocked, other...)
+				return &problem{"inconclusive/concurrent-restore-stalled", fmt.Sprintf("4 concurrent RestoreChunk callers on %s made no progress for %s but are not all blocked in node database locks (%d blocked, %d in other states)", backend, time.Since(lastChange).Round(time.Second), len(blocked), len(other))}
+			}
+			lastChange = time.Now().Add(-stallGrace + 5*time.Second) // look again in 5 s
+		}
 		if bad != nil {
 			return bad
 		}
